@@ -1506,7 +1506,7 @@ func (a *Association) gatherOutboundFastRetransmissionPackets( //nolint:gocognit
 			break // end of pending data
 		}
 
-		if chunkPayload.acked || chunkPayload.givenUp() {
+		if chunkPayload.acked || chunkPayload.abandoned() {
 			continue
 		}
 
@@ -3002,7 +3002,7 @@ func (a *Association) processFastRetransmission( //nolint:gocognit
 			if !ok {
 				return fmt.Errorf("%w: %v", ErrTSNRequestNotExist, tsn)
 			}
-			if !c.acked && !c.givenUp() && c.missIndicator < 3 {
+			if !c.acked && !c.abandoned() && c.missIndicator < 3 {
 				c.missIndicator++
 				if c.missIndicator == 3 {
 					if a.tlrActive {
@@ -4756,7 +4756,7 @@ func (a *Association) onRackAfterSACK( // nolint:gocognit,cyclop,gocyclo
 			next := chunk.rackNext // save in case we remove c
 
 			// but clean up if they exist.
-			if chunk.acked || chunk.givenUp() {
+			if chunk.acked || chunk.abandoned() {
 				a.rackRemove(chunk)
 				chunk = next
 
@@ -4878,7 +4878,7 @@ func (a *Association) onRackTimeoutLocked() { //nolint:cyclop
 	for chunk := a.rackHead; chunk != nil; {
 		next := chunk.rackNext
 
-		if chunk.acked || chunk.givenUp() {
+		if chunk.acked || chunk.abandoned() {
 			a.rackRemove(chunk)
 			chunk = next
 
@@ -4954,7 +4954,7 @@ func (a *Association) onPTOTimerLocked() {
 			break
 		}
 
-		if c.acked || c.givenUp() {
+		if c.acked || c.abandoned() {
 			continue
 		}
 
